@@ -202,7 +202,8 @@ CheckAd(m, sq, i) ==
 WeakScExpected(m, o, v) ==
   LET ob == m.objs[o] IN
   IF ob.vs \in {"dropped", "moved", "uninit", "none"} \/ ob.bs # "live" THEN v = 0
-  ELSE IF o \in Reach(m) \/ ~DestrPhaseOpen(m) THEN ScOk(m, o, v)
+  \* objects caught in an unwound destructor phase may have been marked as dropped without being dropped (permitted leak)
+  ELSE IF (o \in Reach(m) \/ ~DestrPhaseOpen(m)) /\ ~ob.tainted THEN ScOk(m, o, v)
   ELSE v = 0 \/ ScOk(m, o, v)
 
 RECURSIVE CheckWk(_, _, _)
@@ -338,8 +339,12 @@ OnRet(m00, e) ==
       unexpl == pan /\ ~fr.fault /\ e.panic \notin {"max", "unwind"} /\ ~(e.panic = "fagain" /\ op = "fagain")
       mJ == Flag(mI1, unexpl, IF m00.faulted THEN "C07" ELSE IF op \in DropLike \cup {"dropval"} THEN "C04" ELSE IF op = "collect" THEN "C02" ELSE "C01", "unexpected panic " \o e.panic \o " in " \o op)
       mK == IF pan /\ lim = 0 THEN [mJ EXCEPT !.faulted = TRUE] ELSE mJ
+      \* ---- taint after a caught panic: everything unreachable now may leak (skipped destructors, marked as dropped)
+      mK2 == IF lim = 0 /\ pan
+             THEN [mK EXCEPT !.objs = [x \in DOMAIN @ |-> IF x \in Reach(mK) THEN @[x] ELSE [@[x] EXCEPT !.tainted = TRUE]]]
+             ELSE mK
       \* ---- observations
-      mL == CheckObs(mK, e)
+      mL == CheckObs(mK2, e)
       \* ---- per-op postconditions
       unique == Known(m00, o) /\ Cnt(m00, o) = 0 /\ m00.objs[o].infl = 1 /\ m00.objs[o].slack = 0
       mM ==
@@ -376,7 +381,7 @@ OnRet(m00, e) ==
           [] op = "upgrade" ->
                LET ob == IF Known(m00, o) THEN m00.objs[o] ELSE NoObj
                    a1 == Flag(mL, res = "some" /\ (ob.vs # "live" \/ ob.bs # "live" \/ ~Get(e, "vok", TRUE)), "C08", "Weak::upgrade gave access to a dropped or freed value: object " \o ToString(o))
-                   must == ob.vs = "live" /\ ob.bs = "live" /\ Cnt(m00, o) >= 1 /\ (o \in Reach(m00) \/ ~DestrPhaseOpen(m00))
+                   must == ob.vs = "live" /\ ob.bs = "live" /\ ~ob.tainted /\ Cnt(m00, o) >= 1 /\ (o \in Reach(m00) \/ ~DestrPhaseOpen(m00))
                    a2 == Flag(a1, res = "none" /\ must /\ ~pan, "C08", "Weak::upgrade failed although the value is alive: object " \o ToString(o))
                    a3 == Flag(a2, res = "some" /\ InWalk(e, o), "C11", "upgrade left the object in the buffer")
                IN a3
@@ -384,7 +389,7 @@ OnRet(m00, e) ==
                LET t == Get(e, "o", 0)
                    ob == IF Known(m00, t) THEN m00.objs[t] ELSE NoObj
                    a1 == Flag(mL, res = "some" /\ (ob.vs # "live" \/ ob.bs # "live" \/ ~Get(e, "vok", TRUE)), "C08", "Weak::upgrade gave access to a dropped or freed value: object " \o ToString(t))
-                   must == ob.vs = "live" /\ ob.bs = "live" /\ Cnt(m00, t) >= 1 /\ (t \in Reach(m00) \/ ~DestrPhaseOpen(m00))
+                   must == ob.vs = "live" /\ ob.bs = "live" /\ ~ob.tainted /\ Cnt(m00, t) >= 1 /\ (t \in Reach(m00) \/ ~DestrPhaseOpen(m00))
                    a2 == Flag(a1, res = "none" /\ must /\ ~pan, "C08", "Weak::upgrade failed although the value is alive: object " \o ToString(t))
                IN [a2 EXCEPT !.resur = @ \/ (res = "some" /\ t \notin Reach(m00))]
           [] op \in {"drop", "clear"} /\ ~pan /\ lim = 0 /\ Known(mL, o) ->
@@ -412,10 +417,7 @@ OnRet(m00, e) ==
       mP == Flag(mO, clean0 /\ orphanMeta # {}, "C09", "side record not released although allocation and all Weak pointers are gone: " \o ToString(orphanMeta))
       quiet == clean0 /\ op = "collect" /\ fr.ncb = 0 /\ Get(e, "bf", 0) # -1
       mQ == Flag(mP, quiet /\ Unjustified(mM3) # {}, "C02", "unreachable objects survived a quiescent collect_cycles(): " \o ToString(IF quiet THEN Unjustified(mM3) ELSE {}))
-      \* ---- taint after a caught panic: everything unreachable now may leak
-      mR == IF lim = 0 /\ pan
-            THEN [mQ EXCEPT !.objs = [x \in DOMAIN @ |-> IF x \in Reach(mQ) THEN @[x] ELSE [@[x] EXCEPT !.tainted = TRUE]]]
-            ELSE mQ
+      mR == mQ
       \* ---- forget objects that are completely gone
       gone == {x \in Ids(mR) : mR.objs[x].bs \in {"freed", "none"} /\ mR.objs[x].vs \in {"dropped", "none"} /\ ~mR.objs[x].mlive
                                /\ mR.objs[x].roots = 0 /\ mR.objs[x].infl = 0 /\ Cnt(mR, x) = 0 /\ WCnt(mR, x) = 0 /\ mR.objs[x].caps = {}
